@@ -111,6 +111,9 @@ fn block_json(b: &Block) -> Value {
             Stmt::Item(Item::Const(c)) => {
                 stmts.push(json!({"k":"const","name":c.ident.to_string(),"ty":ty_str(&c.ty),"e":expr_json(&c.expr)}));
             }
+            Stmt::Item(Item::Static(c)) => {
+                stmts.push(json!({"k":"static","name":c.ident.to_string(),"ty":ty_str(&c.ty),"e":expr_json(&c.expr)}));
+            }
             Stmt::Item(it) => {
                 stmts.push(json!({"k":"item","src":quote::quote!(#it).to_string().chars().take(200).collect::<String>()}));
             }
